@@ -487,6 +487,7 @@ func checkC20(w *World) {
 	// -t takes precedence: the MIME lookup (and its failure) happens only when no type was forced
 	if g := flagLetter["t"]; g != "" {
 		nLookups, guardedLookups := 0, 0
+		all_ := all
 		for _, fn := range all {
 			allInstrs(fn, func(in ssa.Instruction) {
 				c, ok := in.(*ssa.Call)
@@ -498,7 +499,48 @@ func checkC20(w *World) {
 					return
 				}
 				nLookups++
-				for _, a := range guardAtoms(c.Block()) {
+				var guardedAt func(b *ssa.BasicBlock, depth int) bool
+				guardedAt = func(b *ssa.BasicBlock, depth int) bool {
+					for _, a := range guardAtoms(b) {
+						bo, ok := a.V.(*ssa.BinOp)
+						if !ok {
+							continue
+						}
+						str, isS := constString(bo.Y)
+						other := bo.X
+						if !isS {
+							str, isS = constString(bo.X)
+							other = bo.Y
+						}
+						if !isS || str != "" {
+							continue
+						}
+						forced := sliceContains(other, func(v ssa.Value) bool { return mainGlobalLoad(v) == g })
+						if forced && ((bo.Op == token.EQL && a.Pol) || (bo.Op == token.NEQ && !a.Pol)) {
+							return true
+						}
+					}
+					// the detection may live in a helper that is only called when no type was forced
+					if depth >= 2 {
+						return false
+					}
+					sites, all := 0, true
+					for _, caller := range all_ {
+						allInstrs(caller, func(in2 ssa.Instruction) {
+							if c2, ok := in2.(*ssa.Call); ok && staticCallee(c2) == b.Parent() {
+								sites++
+								if !guardedAt(c2.Block(), depth+1) {
+									all = false
+								}
+							}
+						})
+					}
+					return sites > 0 && all
+				}
+				if guardedAt(c.Block(), 0) {
+					guardedLookups++
+				}
+				for _, a := range []atom{} {
 					bo, ok := a.V.(*ssa.BinOp)
 					if !ok {
 						continue
